@@ -11,6 +11,8 @@ import J5V.Props.C13
 #print axioms J5V.Props.C13.C13_append_decl_pkg
 #print axioms J5V.Props.C13.C13_append_decl_fresh
 #print axioms J5V.Props.C13.C13_append_field_pkg
+#print axioms J5V.Props.C13.C13_append_field_method_pkg
+#print axioms J5V.Props.C13.C13_append_field_topic_pkg
 #print axioms J5V.Props.C13.C13_append_option_pkg
 #print axioms J5V.Props.C13.C13_convert_congr
 #print axioms J5V.Props.C13.C13_addMessage_prefix
